@@ -256,6 +256,31 @@ static void run_case( const std::string& s, const char* wname, bool thorough )
                cmp( "file_input", observe( in ) );
             }
             {
+               // a non-default eol policy must reach the file based classes too: reference = eager memory_input with eol::cr
+               Obs refcr;
+               {
+                  p::memory_input< p::tracking_mode::eager, p::eol::cr, std::string > in( s.data(), s.data() + s.size(), "src" );
+                  refcr = observe( in );
+               }
+               ++vf::st.evaluations;
+               if( refcr.kind != 4 ) {
+                  {
+                     p::file_input< p::tracking_mode::eager, p::eol::cr > in( file_for( s ), "src" );
+                     const Obs o = observe( in );
+                     ++vf::st.evaluations;
+                     X.begin( {} );
+                     if( !o.same( refcr ) ) report( "result differs from memory_input", "file_input with eol::cr", 5, s, refcr, o, wname );
+                  }
+                  {
+                     p::read_input< p::tracking_mode::eager, p::eol::cr > in( file_for( s ), "src" );
+                     const Obs o = observe( in );
+                     ++vf::st.evaluations;
+                     X.begin( {} );
+                     if( !o.same( refcr ) ) report( "result differs from memory_input", "read_input with eol::cr", 5, s, refcr, o, wname );
+                  }
+               }
+            }
+            {
                std::istringstream ss( s );
                p::istream_input<> in( ss, 16, "src" );
                cmp( "istream_input", observe( in ) );
